@@ -421,6 +421,22 @@ func runC47(c *eng.Ctx) {
 					}
 				})
 				c.Check("R4", "counter-restarts-after-check", fn.Pos(), okReset, "after a check that found no cancellation the counter restarts at 0")
+				// a refused write leaves the counter where it is (still due), so every
+				// later write polls again and is refused too
+				for _, r := range eng.Returns(fn) {
+					if res := eng.RetResults(r); !strings.Contains(eng.Render(res[1]), "stream.ErrWritePreempted") {
+						continue
+					}
+					touched := false
+					eng.EachInstr(fn, func(i ssa.Instruction) {
+						if st, ok := i.(*ssa.Store); ok {
+							if fa, ok := st.Addr.(*ssa.FieldAddr); ok && eng.FieldOf(fa).Name() == "writeCount" && st.Block().Dominates(r.Block()) {
+								touched = true
+							}
+						}
+					})
+					c.Check("R4", "refused-write-stays-due", r.Pos(), !touched, "the counter is not restarted on the way to a refusal: once preempted, every later write is checked and refused as well (nothing more goes downstream)")
+				}
 				c.Check("R4", "counter-increments-otherwise", fn.Pos(), okInc, "a write that is not due for a check increments the counter by exactly 1 (so a check happens at least every «interval»+1 writes)")
 			}
 			for _, r := range eng.Returns(fn) {
